@@ -429,6 +429,7 @@ Proof.
     rewrite !R_app, !F_app, R_char. f_equal. f_equal.
     + clear - R_token Hp Hin. unfold tokens_flat. induction inner as [|a r IH]; [reflexivity|].
       cbn [map concat flat_map] in *. rewrite ws_clean_app in Hin. apply andb_prop in Hin as [Ha Hr]. apply andb_prop in Hp as [Hpa Hpr].
+      apply andb_prop in Hpa as [Hpa _].
       rewrite R_app, (R_token a Hpa Ha), (IH Hpr Hr), !F_app. rewrite <- app_assoc. reflexivity.
     + destruct rp as [r|]; [apply R_char|].
       unfold R. cbn [map concat atom_chars]. rewrite app_nil_r. unfold lt_flat. cbn [l_trivia l_data]. rewrite F_app, F_trivia, F_one. reflexivity.
@@ -436,13 +437,70 @@ Qed.
 End Tokens.
 
 (* ---------------------------------------------------------------- files *)
-Lemma R_tokens : forall o toks, forallb pwf toks = true -> ws_clean (Display.a_tokens toks) = true ->
+Lemma R_tokens : forall o toks, forallb stmt_shaped toks = true -> ws_clean (Display.a_tokens toks) = true ->
   R (Display.a_tokens toks) = F (tokens_flat o (project_tokens toks)).
 Proof.
   intros o toks. unfold Display.a_tokens, tokens_flat, project_tokens.
   induction toks as [|a r IH]; intros Hp H; [reflexivity|].
   cbn [map concat flat_map forallb] in *. rewrite ws_clean_app in H. apply andb_prop in H as [Ha Hr]. apply andb_prop in Hp as [Hpa Hpr].
+  apply andb_prop in Hpa as [Hpa _].
   rewrite R_app, F_app, (R_token o a Hpa Ha), (IH Hpr Hr). reflexivity.
+Qed.
+
+(* the shapes imply the parser invariants the token-layer theorems assume (wf_tokens of the projection) *)
+Lemma value_shape_project : forall t, is_value_token (project t) = value_shape t.
+Proof. intros t. destruct t; reflexivity. Qed.
+
+Lemma any_tok_eq : forall P Q t, any_tok P Q t =
+  Q t ||
+  match t with
+  | Braces b | Config b | Loop _ _ b | MacroDefinition _ _ _ _ _ b | Test _ _ b => any_block P Q b
+  | ConfigPair _ _ v => any_tok P Q (l_data v)
+  | Definition_ _ _ (Some v) => any_tok P Q v
+  | If _ _ b _ eb => any_block P Q b || match eb with Some e => any_block P Q e | None => false end
+  | Import _ _ _ _ (Some b) | Label_ _ _ (Some b) | Segment _ _ (Some b) => any_block P Q b
+  | _ => false
+  end.
+Proof. intros P Q t. destruct t; reflexivity. Qed.
+Lemma any_block_eq : forall P Q lp inner rp, any_block P Q (mkBlock lp inner rp) = P inner || existsb (any_tok P Q) inner.
+Proof.
+  intros. reflexivity.
+Qed.
+
+Lemma shaped_ok : forall t, pwf t = true -> any_tok (existsb is_value_token) bad_shape (project t) = false
+with shaped_ok_block : forall b, pwf_block b = true -> any_block (existsb is_value_token) bad_shape (p_block b) = false.
+Proof.
+  - intros t Hp. rewrite any_tok_eq.
+    destruct t; cbn [pwf] in Hp; cbn [project bad_shape orb l_trivia l_data]; try reflexivity;
+      try (apply shaped_ok_block; exact Hp).
+    + (* ConfigPair *) apply andb_prop in Hp as [Hv Hp]. rewrite (shaped_ok _ Hp), orb_false_r.
+      destruct (Nom.data value); try discriminate Hv; reflexivity.
+    + (* Definition *) destruct value as [v|]; [|reflexivity].
+      assert (Hv : pwf v = true /\ match project v with Config _ => false | _ => true end = false).
+      { destruct v; try discriminate Hp. split; [exact Hp | reflexivity]. }
+      destruct Hv as [Hv1 Hv2]. rewrite Hv2, (shaped_ok v Hv1). reflexivity.
+    + (* If *) apply andb_prop in Hp as [H1 H2]. destruct else_ as [[te eb]|]; cbn [fst snd] in *.
+      * rewrite (shaped_ok_block _ H1), (shaped_ok_block _ H2). reflexivity.
+      * rewrite (shaped_ok_block _ H1). reflexivity.
+    + (* Import *) destruct b as [bb|]; [apply shaped_ok_block; exact Hp | reflexivity].
+    + (* Label *) apply andb_prop in Hp as [Hp Hb]. apply andb_prop in Hp as [Ht _].
+      unfold p_char, p_loc. cbn [l_trivia]. destruct (Nom.triv colon); [discriminate|]. cbn [p_triv orb].
+      destruct b as [bb|]; [apply shaped_ok_block; exact Hb | reflexivity].
+    + (* Segment *) destruct b as [bb|]; [apply shaped_ok_block; exact Hp | reflexivity].
+  - intros [lp inner rp] Hp. rewrite p_block_eq, any_block_eq. cbn [pwf_block] in Hp.
+    induction inner as [|a r IH]; [reflexivity|].
+    apply andb_prop in Hp as [Ha Hr]. apply andb_prop in Ha as [Ha Hv]. apply negb_true_iff in Hv.
+    specialize (IH Hr). apply orb_false_elim in IH as [I1 I2].
+    cbn [map existsb]. rewrite value_shape_project, Hv, (shaped_ok a Ha), I1, I2. reflexivity.
+Qed.
+
+Lemma shaped_wf : forall toks, forallb stmt_shaped toks = true -> wf_tokens (project_tokens toks) = true.
+Proof.
+  intros toks H. unfold wf_tokens, any_tokens, project_tokens. apply negb_true_iff.
+  induction toks as [|a r IH]; [reflexivity|].
+  cbn [forallb] in H. apply andb_prop in H as [Ha Hr]. unfold stmt_shaped in Ha. apply andb_prop in Ha as [Ha Hv]. apply negb_true_iff in Hv.
+  specialize (IH Hr). apply orb_false_elim in IH as [I1 I2].
+  cbn [map existsb]. rewrite value_shape_project, Hv, (shaped_ok a Ha), I1, I2. reflexivity.
 Qed.
 
 (* Formatting a file that parses without diagnostics: blanks, line breaks and ASCII letter case aside, the formatted text
@@ -452,7 +510,7 @@ Theorem format_source_chars : forall o s toks,
   exists f, format_source o s = Some f /\ lc (nows f) = lc (nows s).
 Proof.
   intros o s toks Hparse Hs. unfold parser_shaped in Hs.
-  apply andb_prop in Hs as [Hs Hclean]. apply andb_prop in Hs as [Hwf Hpwf].
+  apply andb_prop in Hs as [Hpwf Hclean]. pose proof (shaped_wf toks Hpwf) as Hwf.
   exists (format o (project_tokens toks)). split.
   - unfold format_source. rewrite Hparse. reflexivity.
   - rewrite (format_flat o _ Hwf). fold (F (tokens_flat o (project_tokens toks))).
